@@ -10,8 +10,9 @@ from ..core import g_bool, g_list, g_nat, g_opt, g_pair, g_str
 from ..driver import Prop
 
 
-def pattern_names(tree_nodes, start_pattern):
-    pat = re.compile((start_pattern or r"(?!~\$)") + r".*\.(csv|xlsx)$", re.IGNORECASE)
+def pattern_names(tree_nodes, start_pattern, name_pattern=None):
+    # a caller-supplied compiled pattern is applied with match(): it need not describe the whole name
+    pat = re.compile(name_pattern) if name_pattern else re.compile((start_pattern or r"(?!~\$)") + r".*\.(csv|xlsx)$", re.IGNORECASE)
     names = set()
     for p, kind, payload in tree_nodes:
         if kind == "dir":
@@ -43,8 +44,12 @@ class C16(Prop):
             roots = rng.choice([["/"], ["/"], ["/" + tree["files"][0]["rel"]], ["/", "/" + tree["files"][-1]["rel"]]])
         else:
             roots = rng.choice([["ROOT"], ["ROOT/" + tree["files"][0]["rel"]], ["ROOT", "ROOT/" + tree["files"][-1]["rel"]]])
-        return {"use_root": use_root, "roots": roots, "raising": rng.random() < 0.4, "allow_include": rng.random() < 0.85,
-                "start_pattern": rng.choice([None, None, "in_"])}
+        cfg = {"use_root": use_root, "roots": roots, "raising": rng.random() < 0.4, "allow_include": rng.random() < 0.85,
+               "start_pattern": rng.choice([None, None, "in_"])}
+        if cfg["start_pattern"] is None and rng.random() < 0.25:
+            # a compiled file-name pattern that describes the start of the name only (csv files all the same)
+            cfg["name_pattern"] = rng.choice([r"(in_|f\d)", r"[fg]", r"in_\d\.(csv|CSV)"])
+        return cfg
 
     def generate(self, rng, tier):
         n = 250 if tier == "quick" else 3000
@@ -163,7 +168,8 @@ class C16(Prop):
             return None
         files = {os.path.normpath(os.path.join(root, f["rel"])): f for f in tree["files"]}
         listing = {os.path.normpath(p): pl for p, k, pl in obs["nodes"] if k == "dir"}
-        pat = re.compile((cfg.get("start_pattern") or r"(?!~\$)") + r".*\.(csv|xlsx)$", re.IGNORECASE)
+        pat = re.compile(cfg["name_pattern"]) if cfg.get("name_pattern") else \
+            re.compile((cfg.get("start_pattern") or r"(?!~\$)") + r".*\.(csv|xlsx)$", re.IGNORECASE)
         stack = [(sp, None) for sp in obs["roots"]]
         visited = set()
         self._expected_repeats = 0
@@ -327,7 +333,7 @@ class C16(Prop):
             return None
         return ("(mkcase16 " + L.g_xfs(nodes, outside) + "\n " + g_opt(L.g_path(root) if cfg["use_root"] else None) + " "
                 + g_list([g_str(r) for r in obs["roots"]]) + " " + g_bool(cfg["allow_include"]) + " " + g_bool(cfg["raising"]) + " "
-                + g_list([g_str(n) for n in pattern_names(nodes, cfg.get("start_pattern"))]) + " " + str(obs["code"]) + "\n "
+                + g_list([g_str(n) for n in pattern_names(nodes, cfg.get("start_pattern"), cfg.get("name_pattern"))]) + " " + str(obs["code"]) + "\n "
                 + g_list(evs) + ")")
 
     def nontrivial(self, case, obs):
